@@ -70,12 +70,12 @@ def run_cases(mod, cases, use_model, rep):
 
 def _run_one(c):
     import pyside
-    base = set(pyside.COVER)
+    base, bbase = set(pyside.COVER), set(pyside.BRANCHES)
     try:
         out = pyside.run_case(c)
     except pyside.CaseTimeout as exc:
-        return ("TIMEOUT", str(exc)), []
-    return out, sorted(pyside.COVER - base)
+        return ("TIMEOUT", str(exc)), [], []
+    return out, sorted(pyside.COVER - base), sorted(pyside.BRANCHES - bbase)
 
 
 def run_impl(cases):
@@ -92,10 +92,11 @@ def run_impl(cases):
         with ctx.Pool(jobs) as pool:
             outs = pool.map(_run_one, cases, chunksize=max(1, len(cases) // (jobs * 8)))
     res = []
-    for out, cov in outs:
+    for out, cov, br in outs:
         if isinstance(out, tuple) and out and out[0] == "TIMEOUT":
             raise Timeout(out[1])
         pyside.COVER.update((f, n) for f, n in cov)
+        pyside.BRANCHES.update(tuple(b) for b in br)
         res.append(out)
     return res
 
@@ -293,6 +294,7 @@ def main():
         import cover
         rep.coverage["impl_line_coverage"] = cover.summarise(
             pyside.COVER, getattr(mod, "IMPL_FUNCS", None))
+        rep.coverage["impl_branch_coverage"] = cover.summarise_branches(pyside.BRANCHES)
     if not ok:
         rep.coverage["discharged"] = 0
     rc = rep.finish("proof")
